@@ -81,8 +81,9 @@ class Part:
     """Base class of a check part."""
     name = 'part'
     forked = False        # fork one child per execution (isolation from mutation)
-    timeout = 120.0       # seconds per execution
+    timeout = 60.0        # seconds per execution
     chunk = 1
+    nproc = None          # cap on worker processes (allocation-heavy parts scale badly here)
 
     def cases(self, tier):
         raise NotImplementedError
@@ -95,6 +96,12 @@ class Part:
 
     def describe(self, tier):
         return ''
+
+    def timeout_sig(self, case):
+        return 'timeout'
+
+    def crash_sig(self, case):
+        return 'process_crash'
 
 
 class HarnessError(Exception):
@@ -126,15 +133,33 @@ def _worker_init(part):
         _PART = ('initfail', traceback.format_exc())
 
 
+class ExecTimeout(BaseException):
+    pass
+
+
+def _alarm(signum, frame):
+    raise ExecTimeout()
+
+
 def _run_one(part, case):
     t0 = time.time()
+    signal.signal(signal.SIGALRM, _alarm)
+    signal.setitimer(signal.ITIMER_REAL, part.timeout)
     try:
         out = part.execute(case)
+        signal.setitimer(signal.ITIMER_REAL, 0)
         if not isinstance(out, Outcome):
             raise HarnessError('execute must return an Outcome')
         return ('ok', case, out.obs, out.violations, out.nontrivial, out.transitions,
                 out.states, time.time() - t0)
+    except ExecTimeout:
+        try:
+            part.init_worker()      # the interrupted execution may have left anything behind
+        except Exception:
+            pass
+        return ('timeout', case, None, None, None, None, None, time.time() - t0)
     except Exception:
+        signal.setitimer(signal.ITIMER_REAL, 0)
         return ('err', case, traceback.format_exc(), None, None, None, None, time.time() - t0)
 
 
@@ -185,29 +210,120 @@ def jsonable_result(res):
     return (kind, case, jsonable(obs) if kind == 'ok' else obs, viol, nontriv, trans, states, dt)
 
 
-def _task(cases):
-    part = _PART
-    if isinstance(part, tuple):
-        return [('err', c, 'worker init failed:\n' + part[1], None, None, None, None, 0.0) for c in cases]
-    out = []
-    for c in cases:
-        if part.forked:
-            out.append(_forked_one(part, c))
-        else:
-            out.append(jsonable_result(_run_one(part, c)))
-    return out
+def _worker_loop(part, conn):
+    """Worker: receive chunks of cases, send one result per case, until None arrives."""
+    _worker_init(part)
+    p = _PART
+    while True:
+        try:
+            chunk = conn.recv()
+        except EOFError:
+            break
+        if chunk is None:
+            break
+        for c in chunk:
+            if isinstance(p, tuple):
+                conn.send(('err', c, 'worker init failed:\n' + p[1], None, None, None, None, 0.0))
+            elif p.forked:
+                conn.send(_forked_one(p, c))
+            else:
+                conn.send(jsonable_result(_run_one(p, c)))
+        conn.send(('chunk-done',))
+    os._exit(0)
+
+
+class _Worker:
+    def __init__(self, part):
+        ctx = mp.get_context('fork')
+        self.conn, child = ctx.Pipe()
+        self.pid = os.fork()
+        if self.pid == 0:
+            self.conn.close()
+            try:
+                _worker_loop(part, child)
+            finally:
+                os._exit(0)
+        child.close()
+        self.pending = []     # cases sent and not yet answered (in order)
+
+    def send(self, chunk):
+        self.pending = list(chunk)
+        self.conn.send(chunk)
+
+    def close(self):
+        try:
+            self.conn.send(None)
+        except Exception:
+            pass
+        try:
+            self.conn.close()
+        except Exception:
+            pass
+        try:
+            os.waitpid(self.pid, 0)
+        except ChildProcessError:
+            pass
 
 
 def run_cases(part, cases, nproc=None):
-    """Execute all cases; yield result tuples (unordered)."""
-    nproc = min(nproc or NPROC, max(1, len(cases)))
-    ctx = mp.get_context('fork')
+    """
+    Execute all cases on a pool of forked workers; yield result tuples (unordered).
+    A worker that dies (segfault in native code, os._exit) is detected: the case in flight is
+    reported as ('crash', ...) and the rest of its chunk is re-queued on a fresh worker.
+    """
+    import multiprocessing.connection as mpc
+    nproc = min(nproc or part.nproc or NPROC, max(1, len(cases)))
     chunk = max(1, part.chunk)
-    chunks = [cases[i:i + chunk] for i in range(0, len(cases), chunk)]
-    with ctx.Pool(nproc, initializer=_worker_init, initargs=(part,)) as pool:
-        for res in pool.imap_unordered(_task, chunks):
-            for r in res:
-                yield r
+    queue = [cases[i:i + chunk] for i in range(0, len(cases), chunk)]
+    queue.reverse()
+    workers = [_Worker(part) for _ in range(nproc)]
+    idle = list(workers)
+    busy = {}
+    try:
+        while queue or busy:
+            while queue and idle:
+                w = idle.pop()
+                w.send(queue.pop())
+                busy[w.conn] = w
+            ready = mpc.wait(list(busy), timeout=5.0)
+            for conn in ready:
+                w = busy[conn]
+                try:
+                    msg = conn.recv()
+                except (EOFError, ConnectionResetError, OSError):
+                    # worker died while executing w.pending[0]
+                    try:
+                        _, status = os.waitpid(w.pid, 0)
+                    except ChildProcessError:
+                        status = -1
+                    sig = status & 0x7f if status >= 0 else 0
+                    case = w.pending[0] if w.pending else None
+                    rest = w.pending[1:]
+                    del busy[conn]
+                    try:
+                        conn.close()
+                    except Exception:
+                        pass
+                    workers.remove(w)
+                    nw = _Worker(part)
+                    workers.append(nw)
+                    idle.append(nw)
+                    if rest:
+                        queue.append(rest)
+                    if case is not None:
+                        yield ('crash', case, f'worker process died (wait status {status}, signal {sig})',
+                               None, None, None, None, 0.0)
+                    continue
+                if msg[0] == 'chunk-done':
+                    del busy[conn]
+                    idle.append(w)
+                    continue
+                if w.pending:
+                    w.pending.pop(0)
+                yield msg
+    finally:
+        for w in workers:
+            w.close()
 
 
 # ---------------------------------------------------------------- known findings
@@ -249,6 +365,7 @@ class CheckRun:
         self.exhaustive = True
         self.caps = []
         self.known = load_known()
+        env.quiet_andes()        # import once in the parent; forked workers inherit the loaded package
         self.rng = random.Random(seed)
         self.audit_runs = 0
 
@@ -267,8 +384,11 @@ class CheckRun:
             n += 1
             self.evaluations += 1
             if kind != 'ok':
-                if kind == 'timeout':
-                    viol = [dict(sig='timeout', msg=f'execution did not finish in {part.timeout}s', detail={})]
+                if kind == 'crash':
+                    viol = [dict(sig=part.crash_sig(case), msg=f'native crash: {obs}', detail={})]
+                    obs, nontriv, trans, states = 'crash', True, 1, None
+                elif kind == 'timeout':
+                    viol = [dict(sig=part.timeout_sig(case), msg=f'execution did not finish in {part.timeout}s', detail={})]
                     obs, nontriv, trans, states = 'timeout', True, 1, None
                 else:
                     self.harness_errors.append(dict(part=part.name, case=jsonable(case), error=obs))
@@ -293,7 +413,7 @@ class CheckRun:
             for kind, case, obs, viol, nontriv, trans, states, dt in run_cases(part, pick, nproc=2):
                 self.audit_runs += 1
                 if kind != 'ok':
-                    if kind == 'timeout' and first_digest.get(digest(case)) == digest('timeout'):
+                    if kind in ('timeout', 'crash') and first_digest.get(digest(case)) == digest(kind):
                         continue
                     self.harness_errors.append(dict(part=part.name, case=jsonable(case),
                                                     error=f'audit re-run failed: {kind} {obs}'))
